@@ -177,6 +177,8 @@ pub(super) fn new_probe_id() -> [u8; SRTLA_ID_LEN] {
     use rand::RngCore;
     let mut probe_id = [0u8; SRTLA_ID_LEN];
     rand::rng().fill_bytes(&mut probe_id);
+    #[cfg(feature = "verif-hooks")]
+    crate::verif_hooks::seeded_fill(&mut probe_id);
     probe_id
 }
 
